@@ -1,13 +1,13 @@
 #!/usr/bin/env python3
-"""Stand-alone driver for the whole-file tie of C01 (Model/FileImage.v): python3 tools/c01file_driver.py [quick|thorough]
+"""Stand-alone driver for the whole-file attribute tie of C02 (Model/FileImageAttr.v): python3 tools/c02file_driver.py [quick|thorough]
 
-Builds the harness from VERIF_REPO (default /repo), calls props.c01file.run_unit and prints the result.
+Builds the harness from VERIF_REPO (default /repo), calls props.c02file.run_unit and prints the result.
 Exit 1 when a violation is reported (used to try hand-made mutations:
-VERIF_REPO=<clone>/build/mut-1 python3 tools/c01file_driver.py)."""
+VERIF_REPO=<clone>/build/mut-1 python3 tools/c02file_driver.py)."""
 import json, os, sys, time
 sys.path.insert(0, os.path.dirname(os.path.abspath(__file__)))
 import vlib
-from props import c01file
+from props import c02file
 
 
 class Ctx:
@@ -16,17 +16,14 @@ class Ctx:
 
 def main():
     ctx = Ctx()
-    ctx.pid = "C01"
+    ctx.pid = "C02"
     ctx.tier = sys.argv[1] if len(sys.argv) > 1 else "quick"
-    ctx.seed, ctx.rng = vlib.seed_for("C01")
-    ok, log = (True, "") if os.environ.get("NO_MAKE") else vlib.coq_make()
-    if not ok:
-        print(log[-3000:])
-        sys.exit(2)
+    ctx.seed, ctx.rng = vlib.seed_for("C02")
+    # the Coq tree must be built already: this driver does not run make
     ctx.harness = vlib.build_harness()
     t = time.time()
     try:
-        r = c01file.run_unit(ctx)
+        r = c02file.run_unit(ctx)
     finally:
         vlib.cleanup()
     v = r.pop("violations")
